@@ -53,6 +53,10 @@ PROF_LIVE_SAT = dict(limited_only=True, backlog=True, backlog_extra=6, faults=Fa
 PROF_RELISTEN = dict(faults=False, outage_p=.05, aw_p=.05, relisten_any_p=.15, relisten_stop_p=0)
 
 
+# a NEW Receiver with its own (max_async_tasks, max_prefetch) per listening session on one broker object (recv_props.gen_rebuild)
+PROF_REBUILD = dict(faults=False, outage_p=.03, aw_p=.03, ends_p=.2)
+
+
 PROC_TAGS = ("cb.start", "cb.end", "hook.pre", "hook.post", "hook.post_save", "hook.on_error", "hook.aw", "hook.aw.end", "body.in",
              "body.cleanup", "body.out", "save", "save.end", "ack", "ack.end", "bg.new", "bg.done")
 
@@ -70,7 +74,12 @@ def oracle(sc, obs):
     f = R.Facts(sc, obs)
     if f.limit_only:
         return out          # (one Receiver object listening again after a graceful stop: no claim, see PROF_RELISTEN)
-    bound = sc["A"] + sc["P"] + 1
+    # (a new Receiver with its own configuration per session, recv_props.gen_rebuild: every session is held to the bound of the
+    # Receiver that listens in it; otherwise the scenario has one configuration)
+    def bound_of(key):
+        a, p = R.session_cfg(sc, key)
+        return a + p + 1
+
     last, cbended, pending = {}, set(), {}
     for k, e in enumerate(f.raw):
         if e[1] in PROC_TAGS:
@@ -92,7 +101,7 @@ def oracle(sc, obs):
     # what an earlier session left running counts on; what went down with a failed session's hand-over queue (taken, never handed
     # to a callback) stops counting when the next session begins.
     wkey = (lambda i: 0) if f.same_rcv else f.session_of
-    unfin, peak = {}, 0
+    unfin, peak, over, bound = {}, 0, None, bound_of(0)
     when = None
     late = []
     for k, e in enumerate(f.raw):
@@ -104,15 +113,17 @@ def oracle(sc, obs):
             unfin[wkey(i)] = unfin.get(wkey(i), 0) - 1
             if e[1] != "cb.end":
                 late.append(i)
-        if unfin and max(unfin.values()) > peak:
-            peak = max(unfin.values())
-            when = e[0]
-    if peak > bound:
+        for key, n in unfin.items():
+            if over is None or n - bound_of(key) > over:
+                over, peak, bound, when = n - bound_of(key), n, bound_of(key), e[0]
+                worst = key
+    if over is not None and over > 0:
         out.append(dict(what="more than A+P+1 messages taken from the broker and not yet finished",
-                        observed=dict(peak=peak, at_us=when, finished_after_their_callback_ended=late[:12],
+                        observed=dict(peak=peak, at_us=when, listening_session=worst, finished_after_their_callback_ended=late[:12],
                                       never_finished_after_callback_end=sorted(i for i in cbended if pending.get(i))[:12]),
                         expected="<= %d" % bound, sig=dict(kind="bound")))
     obs["_peak"] = peak
+    obs["_over"] = over if over is not None else -bound
     obs["_late"] = len(late)
     return out
 
@@ -138,7 +149,7 @@ def explore(ctx, rep, scs, label):
         for f in oracle(sc, o):
             rep.fail(f["what"], sc, observed=f["observed"], expected=f["expected"], sig=f["sig"])
         if R.limited(sc):
-            rep.count("peak-bound:%d" % (o["_peak"] - (sc["A"] + sc["P"] + 1)))
+            rep.count("peak-bound:%d" % o["_over"])
             if o.get("_late"):
                 rep.count("scenario:with-message-finished-after-its-callback-ended")     # never on the unchanged code
         R.count_inputs(rep, sc)
@@ -164,6 +175,8 @@ def run(ctx):
     scs += [R.gen_live(r4, PROF_LIVE_SAT if i % 2 else PROF_LIVE) for i in range(ctx.n(80, 4000))]
     r6 = ctx.sub_rng("gen-relisten")         # own stream: ONE Receiver object over several listen() sessions
     scs += [R.gen_relisten(r6, PROF_RELISTEN) for _ in range(ctx.n(30, 1500))]
+    r7 = ctx.sub_rng("gen-rebuild")          # own stream: a new Receiver with another configuration per session, one broker object
+    scs += [R.gen_rebuild(r7, PROF_REBUILD) for _ in range(ctx.n(40, 2000))]
     broken = explore(ctx, rep, scs, "main")
     if not ctx.quick:
         broken = explore(ctx, rep, R.grid_scenarios(), "grid") or broken
